@@ -736,7 +736,8 @@ with SqlImpl.impl_store.impl_manager as impl:
     @impl(ops.pow)
     def _pow(lhs, rhs):
         return_type = sqa.Double()
-        if isinstance(lhs.type, sqa.Numeric) and isinstance(rhs.type, sqa.Numeric):
+        # `sqa.Float` is a subclass of `sqa.Numeric`: only true decimals give a decimal
+        if all(isinstance(x.type, sqa.Numeric) and not isinstance(x.type, sqa.Float) for x in (lhs, rhs)):
             return_type = sqa.Numeric()
         return sqa.func.POW(lhs, rhs, type_=return_type)
 
